@@ -109,22 +109,54 @@ def ids_tok(l):
     return "-" if not l else ",".join(str(int(x)) for x in l)
 
 
+WRAP_ERRORS = []
+
+
+def bound_plate_lists(original, self_, args, kwargs):
+    """(batch_plates, unobserved_plates) of a call of the policy, whatever positional / keyword form was used"""
+    import inspect
+    ba = inspect.signature(original).bind(self_, *args, **kwargs)
+    a = ba.arguments
+    if "batch_plates" in a and "unobserved_plates" in a:
+        return a["batch_plates"], a["unobserved_plates"]
+    lists = [v for v in list(a.values())[1:] if isinstance(v, list)]
+    return lists[0], lists[1]
+
+
+def drain_wrapper_errors(res, case=None):
+    if WRAP_ERRORS:
+        res.count("wrapper.unexpected-call", len(WRAP_ERRORS))
+        res.disagree("C16:wrapper-unexpected-call", {"case": case}, WRAP_ERRORS[0], "a call form the harness's wrapper understands")
+        del WRAP_ERRORS[:]
+
+
 def make_policy(k, log):
     from batchie.policies.k_per_sample import KPerSamplePlatePolicy
 
     class Recording(KPerSamplePlatePolicy):
-        def filter_eligible_plates(self, batch_plates, unobserved_plates, rng):
-            entry = {"batch": [int(p.plate_id) for p in batch_plates], "unobs": [int(p.plate_id) for p in unobserved_plates]}
+        def filter_eligible_plates(self, *args, **kwargs):
+            # any positional / keyword form is accepted and forwarded unchanged (checklist item 21); what the harness wants to look at
+            # (the two plate lists) is bound against the real signature, and failing to do so is the harness's problem (tie)
+            entry = {}
             log.append(entry)
-            b0, u0 = list(batch_plates), list(unobserved_plates)
+            batch_plates = unobserved_plates = None
             try:
-                r = super().filter_eligible_plates(batch_plates, unobserved_plates, rng)
+                batch_plates, unobserved_plates = bound_plate_lists(KPerSamplePlatePolicy.filter_eligible_plates, self, args, kwargs)
+                entry["batch"] = [int(p.plate_id) for p in batch_plates]
+                entry["unobs"] = [int(p.plate_id) for p in unobserved_plates]
+                b0, u0 = list(batch_plates), list(unobserved_plates)
+            except Exception as e:  # noqa
+                WRAP_ERRORS.append("Recording.filter_eligible_plates: %s: %s" % (type(e).__name__, e))
+                batch_plates = None
+            try:
+                r = super().filter_eligible_plates(*args, **kwargs)
             except Exception as e:  # noqa
                 entry["error"] = type(e).__name__
                 raise
             entry["eligible"] = [int(p.plate_id) for p in r]
-            entry["args_changed"] = (len(b0) != len(batch_plates) or any(x is not y for x, y in zip(b0, batch_plates)) or
-                                     len(u0) != len(unobserved_plates) or any(x is not y for x, y in zip(u0, unobserved_plates)))
+            if batch_plates is not None:
+                entry["args_changed"] = (len(b0) != len(batch_plates) or any(x is not y for x, y in zip(b0, batch_plates)) or
+                                         len(u0) != len(unobserved_plates) or any(x is not y for x, y in zip(u0, unobserved_plates)))
             return r
 
     return Recording(k)
@@ -178,14 +210,19 @@ def install_cli_policy():
     import batchie.policies.k_per_sample as mod
     if getattr(mod, "VerifRecKPerSample", None) is None:
         class VerifRecKPerSample(mod.KPerSamplePlatePolicy):
-            def __init__(self, k: int):
-                super().__init__(k)
+            def __init__(self, k: int, *args, **kwargs):
+                super().__init__(k, *args, **kwargs)
 
-            def filter_eligible_plates(self, batch_plates, unobserved_plates, rng):
-                entry = {"batch": [int(p.plate_id) for p in batch_plates], "unobs": [int(p.plate_id) for p in unobserved_plates], "k": self.k,
-                         "rng": rng is not None}
+            def filter_eligible_plates(self, *args, **kwargs):
+                entry = {"k": self.k}
                 CLI_LOG.append(entry)
-                r = super().filter_eligible_plates(batch_plates, unobserved_plates, rng)
+                try:
+                    bp, up = bound_plate_lists(mod.KPerSamplePlatePolicy.filter_eligible_plates, self, args, kwargs)
+                    entry["batch"] = [int(p.plate_id) for p in bp]
+                    entry["unobs"] = [int(p.plate_id) for p in up]
+                except Exception as e:  # noqa
+                    WRAP_ERRORS.append("VerifRecKPerSample.filter_eligible_plates: %s: %s" % (type(e).__name__, e))
+                r = super().filter_eligible_plates(*args, **kwargs)
                 entry["eligible"] = [int(p.plate_id) for p in r]
                 return r
         mod.VerifRecKPerSample = VerifRecKPerSample
@@ -232,9 +269,10 @@ def call_select_cli(screen, desc, k, batch, eligible_hint, target, cli):
         with quiet_cli(argv), contextlib.redirect_stdout(io.StringIO()):
             cli_mod.main()
     except BaseException as e:  # noqa  (argparse: SystemExit)
-        return (CLI_LOG[-1].get("eligible") if CLI_LOG else None), type(e).__name__, None
+        from harness.wrapguard import raised_in_harness
+        return (CLI_LOG[-1].get("eligible") if CLI_LOG else None), ("harness:" if raised_in_harness(e) else "") + type(e).__name__, None
     el = CLI_LOG[-1].get("eligible") if CLI_LOG else None
-    if CLI_LOG and sorted(CLI_LOG[-1]["batch"]) != sorted(int(x) for x in batch):
+    if CLI_LOG and "batch" in CLI_LOG[-1] and sorted(CLI_LOG[-1]["batch"]) != sorted(int(x) for x in batch):
         # what the policy RECEIVED as the batch is not the batch given on the command line: reported through the property's own clause
         # (oracle_state judges `el` against the true batch), and recorded here for the message
         cli["received_batch"] = CLI_LOG[-1]["batch"]
@@ -273,7 +311,8 @@ def _call_select(screen, desc, k, batch, eligible_hint=(), target=None, shared=N
         r = select_next_plate(scores=scores, screen=screen, policy=pol, batch_plate_ids=(None if (not ids and CALLS[0] % 2) else ids),
                               rng=np.random.default_rng(CALLS[0]))
     except Exception as e:  # noqa
-        return (log[-1].get("eligible") if log else None), type(e).__name__, None
+        from harness.wrapguard import raised_in_harness
+        return (log[-1].get("eligible") if log else None), ("harness:" if raised_in_harness(e) else "") + type(e).__name__, None
     if screen_snapshot(screen) != snap or ids != ids0 or (log and log[-1].get("args_changed")):
         MUTATIONS.append({"screen_changed": screen_snapshot(screen) != snap, "batch_ids_changed": ids != ids0,
                           "policy_argument_lists_changed": bool(log and log[-1].get("args_changed"))})
@@ -286,6 +325,11 @@ def _call_select(screen, desc, k, batch, eligible_hint=(), target=None, shared=N
 # ----------------------------------------------------------------------------------------------
 def oracle_state(res, case, desc, k, batch, el, err, returned):
     """the property clauses in one state; returns False when a clause failed"""
+    drain_wrapper_errors(res, case)
+    if err is not None and str(err).startswith("harness:"):      # raised by the harness's own wrapper / stub code: tie, not a finding
+        res.count("wrapper.unexpected-call")
+        res.disagree("C16:harness-exception", {"case": case}, err, "no exception in harness code")
+        return False
     byid = {d[0]: d for d in desc}
     bset = set(batch)
     involved = [d for d in desc if d[0] in bset or not d[2]]
